@@ -103,6 +103,16 @@ func ProfileFor(prop string) *Profile {
 		p.Scenario = 300
 		p.Gang = 850
 		p.W = scale(p.W, map[string]int{OpFirePH: 22, OpFireState: 14, OpDecom: 14, OpRelease: 60, OpDupConfirm: 14, OpReconfirm: 10, OpRmApp: 16, OpBound: 0, OpBindAsk: 0, OpUpdAsk: 0})
+	case "C07", "C08":
+		p.PreemptScenario = 800
+		p.Gang = 60
+		p.Aged = 800
+		p.ReqNode = 100
+		p.NodeCap = [2]int{4, 8}
+		p.MaxApps = 7
+		p.Reloads = true
+		p.Cfg = CfgOpts{Limits: 60, MaxApps: 60, QueueMax: 500, Guaranteed: 800, Preemption: true, Priorities: prop == "C07", QuotaPreemption: true, Dynamic: false}
+		p.W = scale(p.W, map[string]int{OpBound: 40, OpReload: 12, OpQuotaPre: 30, OpConfirm: 90, OpDrain: 3, OpDecom: 3, OpForeign: 4, OpUpdNode: 5, OpFirePH: 2, OpFireState: 4, OpRelease: 30})
 	case "C09":
 		p.Aged = 900
 		p.ReqNode = 200
@@ -182,6 +192,10 @@ func RunCase(prop string, seed uint64, replayDir string, cmdLog *os.File) (res *
 		if op := g.make(OpAddApp); op != nil {
 			e.Do(op)
 		}
+	}
+	if prof.PreemptScenario > 0 && r.Chance(prof.PreemptScenario) {
+		e.scenarioPreemption(g, r)
+		e.obs("scenario.preemption", 1)
 	}
 	if prof.Scenario > 0 && r.Chance(prof.Scenario) {
 		e.scenarioInterruptedSwap(g, r)
@@ -332,6 +346,10 @@ func nontrivial(prop string, e *Engine) bool {
 		return len(e.Hist.States) >= 4
 	case "C11":
 		return o["c11.gated_first_allocations"] > 0
+	case "C07":
+		return o["c07.victims"] > 0
+	case "C08":
+		return o["c07.victims"] > 0 && (o["c08.effect_checked"] > 0 || o["c08.quota_batches"] > 0)
 	case "C16":
 		return o["c16.reloads_with_running_state"] > 0
 	}
